@@ -181,7 +181,7 @@ pub struct Request {
     pub drop_after_chunks: Option<usize>,
     pub page: Vec<Node>,
     /// provider props: 0 defaults, 1 enable_cookie=false, 2 cookie_name="site_locale", 3 set_dir_attr_on_html=false,
-    /// 4 set_lang_attr_on_html=false, 5 enable_cookie=true + set_dir_attr_on_html=false
+    /// 4 set_lang_attr_on_html=false, 5 enable_cookie=true + set_dir_attr_on_html=false, 6 both attributes off
     pub provider: u8,
     /// the whole provider sits under a `<Suspense>` boundary (its view is walked twice)
     pub under_suspense: bool,
@@ -219,10 +219,10 @@ impl Request {
         }
     }
     fn sets_lang(&self) -> bool {
-        self.provider != 4
+        self.provider != 4 && self.provider != 6
     }
     fn sets_dir(&self) -> bool {
-        self.provider != 3 && self.provider != 5
+        self.provider != 3 && self.provider != 5 && self.provider != 6
     }
 }
 
@@ -279,7 +279,7 @@ pub fn generate(rng: &mut Rng) -> Plan {
     let mut requests = vec![];
     for _ in 0..n_req {
         // concurrent requests carry different cookies so that leakage between them is visible
-        let provider = if rng.chance(1, 2) { 0 } else { rng.below(6) as u8 };
+        let provider = if rng.chance(1, 2) { 0 } else { rng.below(7) as u8 };
         let cname = if provider == 2 && rng.chance(3, 4) { "site_locale" } else { "i18n_pref_locale" };
         let cookie = match rng.below(4) {
             0 => String::new(),
@@ -521,6 +521,7 @@ fn page_view(r: Request, gates: Vec<Gate>, set_cookies: Arc<Mutex<ResponseState>
         3 => view! { <I18nContextProvider set_dir_attr_on_html=false cookie_options=copts ssr_lang_header_getter=lopts>{children()}</I18nContextProvider> }.into_any(),
         4 => view! { <I18nContextProvider set_lang_attr_on_html=false cookie_options=copts ssr_lang_header_getter=lopts>{children()}</I18nContextProvider> }.into_any(),
         5 => view! { <I18nContextProvider enable_cookie=true set_dir_attr_on_html=false cookie_options=copts ssr_lang_header_getter=lopts>{children()}</I18nContextProvider> }.into_any(),
+        6 => view! { <I18nContextProvider set_lang_attr_on_html=false set_dir_attr_on_html=false cookie_options=copts ssr_lang_header_getter=lopts>{children()}</I18nContextProvider> }.into_any(),
         _ => view! { <I18nContextProvider cookie_options=copts ssr_lang_header_getter=lopts>{children()}</I18nContextProvider> }.into_any(),
     };
     if under_suspense {
